@@ -263,3 +263,61 @@ package dastard
 //@   ensures isnew: fresh(result)
 //@   ensures inrange: SpecsInRange(result, len(raw), frameIndexOfraw0)
 //@   modifies s.nextFrameIndexToInspect, s.t, s.u, s.v, s.iFirstCheckSentinel
+
+// ---- per-block processing of one channel ----
+// Frame contracts of the analysis and publication steps as seen from the stream (their own
+// functional contracts are given with C13 / C05 / C06).
+//@ func (*DataStreamProcessor).DecimateData
+//@   props C01
+//@   requires !dsp.Decimate
+//@   ensures unchanged(segment.rawData, segment.framesPerSample)
+//@   modifies nothing
+//@   nosafety
+
+//@ func (EMTState).NToKeepOnTrim
+//@   props C01 C02 C08
+//@   requires 0 <= s.nsamp && s.nsamp < 1000000000
+//@   ensures result == 2 * s.nsamp + 10
+
+// TrimStream keeps at least two record lengths of history (what the next cycle's scans and the
+// edge-multi look-back read), and never discards unscanned samples.
+//@ func (*DataStreamProcessor).TrimStream
+//@   props C01 C02 C08
+//@   requires WFStream(dsp.stream) && 0 <= dsp.EMTState.nsamp && dsp.EMTState.nsamp < 1000000000
+//@   ensures window: WFStream(dsp.stream) && dsp.stream.samplesSeen == old(dsp.stream.samplesSeen)
+//@   ensures kept: len(dsp.stream.rawData) == min(old(len(dsp.stream.rawData)), 2 * dsp.EMTState.nsamp + 10)
+//@   ensures stamps: dsp.stream.firstFrameIndex == old(dsp.stream.firstFrameIndex) + (old(len(dsp.stream.rawData)) - len(dsp.stream.rawData)) * dsp.stream.framesPerSample
+//@   ensures labels: old(LabelsOK(dsp.stream)) ==> LabelsOK(dsp.stream)
+//@   modifies dsp.stream.rawData, dsp.stream.rawData[*], dsp.stream.firstFrameIndex, dsp.stream.firstTime
+
+//@ func (*DataStreamProcessor).AnalyzeData
+//@   trusted
+//@   modifies any(DataRecord).pretrigMean, any(DataRecord).pretrigDelta, any(DataRecord).pulseAverage, any(DataRecord).pulseRMS, any(DataRecord).peakValue, any(DataRecord).modelCoefs, any(DataRecord).residualStdDev
+
+//@ func (*DataPublisher).PublishData
+//@   trusted
+//@   ensures result == nil
+//@   modifies dp.numberWritten
+
+// processSegment: the block is appended, triggered, analysed and published; the stream is NOT
+// trimmed here (the secondary records of this cycle are still to be cut from the same window).
+//@ func (*DataStreamProcessor).processSegment
+//@   props C01 C02
+//@   requires WFStream(dsp.stream) && LenOK(dsp) && EMTValid(dsp) && !dsp.Decimate
+//@   requires segment != nil && addr(dsp.stream.DataSegment) != segment
+//@   ensures window: WFStream(dsp.stream) && dsp.stream.samplesSeen == old(dsp.stream.samplesSeen) + old(len(segment.rawData)) && len(dsp.stream.rawData) == old(len(dsp.stream.rawData)) + old(len(segment.rawData))
+//@   ensures history: forall a int :: {dsp.stream.hist[a]} a < old(dsp.stream.samplesSeen) ==> dsp.stream.hist[a] == old(dsp.stream.hist[a])
+//@   ensures stamps: dsp.stream.firstFrameIndex == old(segment.firstFrameIndex) - old(len(dsp.stream.rawData)) * old(segment.framesPerSample)
+//@   ensures labels: old(Contig(dsp.stream, segment)) ==> LabelsOK(dsp.stream)
+//@   ensures lengths: unchanged(dsp.NSamples, dsp.NPresamples)
+//@   modifies dsp.stream.*, dsp.stream.hist, dsp.stream.gframe, dsp.stream.gtime, dsp.stream.rawData[*], dsp.LastTrigger, dsp.lastTrigList.*, dsp.EMTState.nextFrameIndexToInspect, dsp.EMTState.t, dsp.EMTState.u, dsp.EMTState.v, dsp.EMTState.iFirstCheckSentinel, dsp.numberWritten,
+//@            any(DataRecord).pretrigMean, any(DataRecord).pretrigDelta, any(DataRecord).pulseAverage, any(DataRecord).pulseRMS, any(DataRecord).peakValue, any(DataRecord).modelCoefs, any(DataRecord).residualStdDev
+
+//@ func (*DataStreamProcessor).processSecondaries
+//@   props C01 C09
+//@   requires WFStream(dsp.stream) && LenOK(dsp)
+//@   requires inrange: forall p int :: {at(secondaryFrames, p)} secondaryFrames.off <= p && p < secondaryFrames.off + len(secondaryFrames) ==>
+//@        dsp.NPresamples <= at(secondaryFrames, p) - dsp.stream.firstFrameIndex && at(secondaryFrames, p) - dsp.stream.firstFrameIndex + dsp.NSamples - dsp.NPresamples <= len(dsp.stream.rawData)
+//@   ensures window: WFStream(dsp.stream) && unchanged(dsp.stream.samplesSeen, dsp.stream.rawData, dsp.stream.firstFrameIndex)
+//@   modifies dsp.numberWritten,
+//@            any(DataRecord).pretrigMean, any(DataRecord).pretrigDelta, any(DataRecord).pulseAverage, any(DataRecord).pulseRMS, any(DataRecord).peakValue, any(DataRecord).modelCoefs, any(DataRecord).residualStdDev
